@@ -169,7 +169,8 @@ class AList:
         self.doms = list(doms)
 
     def key(self):
-        return ("list", tuple(vkey(i) for i in self.items), tuple(self.doms))
+        # the domains are bookkeeping (symbolic length); the items carry the pseudo-elements themselves
+        return ("list", tuple(vkey(i) for i in self.items))
 
 
 class ADict:
@@ -293,7 +294,7 @@ def show_atom(a, depth=0):
     if tag in ("tuple",):
         return "(" + ", ".join(show_key(x, depth + 1) for x in a[1:]) + ")"
     if tag == "list":
-        return "[" + ", ".join(show_key(x, depth + 1) for x in a[1]) + ("" if not a[2] else " …") + "]"
+        return "[" + ", ".join(show_key(x, depth + 1) for x in a[1]) + "]"
     if tag == "slice":
         return ":".join("" if x == ("const", "None") else show_key(x, depth + 1) for x in a[1:])
     return tag + "(" + ", ".join(show_key(x, depth + 1) if isinstance(x, tuple) else str(x) for x in a[1:]) + ")"
@@ -452,6 +453,19 @@ def make_cond(alts):
         if common:
             rest = [(g, Poly({m: c for m, c in v.terms.items() if m not in common})) for g, v in alts]
             return Poly(common) + as_term(make_cond(rest))
+    # lists grown on some paths only: align positionally; a missing element is `absent`
+    if all(isinstance(v, AList) for _, v in alts):
+        n = max(len(v.items) for _, v in alts)
+        items = []
+        for i in range(n):
+            col = [(g, v.items[i] if i < len(v.items) else Poly.atom(("absent",))) for g, v in alts]
+            items.append(make_cond(col))
+        doms = []
+        for _, v in alts:
+            for d in v.doms:
+                if d not in doms:
+                    doms.append(d)
+        return AList(items, doms)
     # containers: merge component-wise when shapes agree
     if all(isinstance(v, ATuple) for _, v in alts) and len({len(v.items) for _, v in alts}) == 1:
         n = len(alts[0][1].items)
@@ -477,9 +491,32 @@ INTERPRETED = {"log", "exp", "log1p", "lgamma", "sqrt"}
 K_ELEMS = 2
 
 
+def _clone_env(env):
+    """Copy an environment for a forked path: mutable abstract containers are cloned (aliases among the
+    entries of one environment stay aliases), so an append on one path is invisible on the other."""
+    memo = {}
+
+    def clone(v):
+        if isinstance(v, AList):
+            if id(v) not in memo:
+                n = AList([], list(v.doms))
+                memo[id(v)] = n
+                n.items = [clone(x) for x in v.items]
+            return memo[id(v)]
+        if isinstance(v, ADict):
+            if id(v) not in memo:
+                n = ADict({}, list(v.doms))
+                memo[id(v)] = n
+                n.items = {k: (clone(x[0]), clone(x[1])) for k, x in v.items.items()}
+            return memo[id(v)]
+        return v
+
+    return {k: clone(v) for k, v in env.items()}
+
+
 class State:
-    def __init__(self, env=None, guards=None):
-        self.env = dict(env or {})
+    def __init__(self, env=None, guards=None, clone=True):
+        self.env = _clone_env(env) if (env and clone) else dict(env or {})
         self.guards = list(guards or [])
 
     def fork(self, g):
@@ -516,6 +553,7 @@ class Interp:
         self.inline_all_repo = inline_all_repo
         self.opaque_self_methods = set(opaque_self_methods)
         self.copy_is_identity = copy_is_identity
+        self.loop_doms = []
         self.notes = []
 
     # ----------------------------------------------------------- entry points
@@ -678,6 +716,18 @@ class Frame:
     def exec_for(self, s, st):
         it = self.eval(s.iter, st)
         elems = self.domain_elements(it, s.iter)
+        concrete = isinstance(it, (AList, ATuple, ADict)) and not getattr(it, "doms", None)
+        if not concrete:
+            a0 = as_term(it).as_atom() if not isinstance(it, (AList, ATuple, ADict)) else None
+            if a0 is not None and a0[0] == "call" and a0[1] == "range" and all(_const_of_key(x) is not None for x in a0[2]):
+                concrete = True
+        self.I.loop_doms.append(None if concrete else (tuple(it.doms) if isinstance(it, AList) and it.doms else (vkey(it),)))
+        try:
+            return self._exec_for_body(s, st, elems)
+        finally:
+            self.I.loop_doms.pop()
+
+    def _exec_for_body(self, s, st, elems):
         cur = st
         for e in elems:
             self.assign(s.target, e, cur)
@@ -944,7 +994,17 @@ class Frame:
         return Poly.atom(("fstr", ast.unparse(e)))
 
     def e_Lambda(self, e, st):
-        return Poly.atom(("lambda", ast.unparse(e)))
+        # canonical parameter names, so that renaming a lambda's parameter is invisible
+        ren = {a.arg: "_a%d" % i for i, a in enumerate(e.args.posonlyargs + e.args.args)}
+        import copy as _copy
+
+        e2 = _copy.deepcopy(e)
+        for n in ast.walk(e2):
+            if isinstance(n, ast.Name) and n.id in ren:
+                n.id = ren[n.id]
+            elif isinstance(n, ast.arg) and n.arg in ren:
+                n.arg = ren[n.arg]
+        return Poly.atom(("lambda", ast.unparse(e2)))
 
     def e_Starred(self, e, st):
         raise Unsupported("starred expression")
@@ -1096,6 +1156,14 @@ class Frame:
                 return Poly.const(len(v.items))
             if isinstance(v, str):
                 return Poly.const(len(v))
+            if isinstance(v, AList) and any(_maybe_absent(x) for x in v.items):
+                # filtered list: count the elements that are present
+                tot = Poly.const(0)
+                for x in v.items:
+                    tot = tot + _presence(x)
+                return tot
+            if isinstance(v, AList) and len(v.doms) == 1 and len(v.items) == K_ELEMS:
+                return Poly.atom(("call", "len", (v.doms[0],), ()))  # one item per element of the domain
             return Poly.atom(("call", "len", (vkey(v),), ()))
         if dotted == "sum" and args and isinstance(args[0], AList):
             tot = Poly.const(0) if len(args) == 1 else as_term(args[1])
@@ -1197,6 +1265,11 @@ class Frame:
         if isinstance(recv, AList):
             if name == "append" and len(args) == 1:
                 recv.items.append(args[0])
+                for d in self.I.loop_doms:
+                    if d is not None:
+                        for x in d:
+                            if x not in recv.doms:
+                                recv.doms.append(x)
                 return None
             if name == "extend" and len(args) == 1:
                 if isinstance(args[0], (AList, ATuple)):
@@ -1237,6 +1310,12 @@ class Frame:
                 is_static = "staticmethod" in m.decorators
                 a2 = args if is_static else [recv] + args
                 return self.call_function(m, a2, kwargs, st, node, self_cls=ci)
+        if name in ("extend", "append") and len(args) == 1 and isinstance(recv, Poly) and isinstance(f.value, ast.Name) and f.value.id in st.env:
+            # in-place growth of an opaque sequence held in a local: rebind the local to the concatenation
+            self.opaque_mcall(name, recv, args, kwargs, st, node)
+            tail = args[0] if name == "extend" else AList([args[0]])
+            st.env[f.value.id] = Poly.atom(("call", "concat", (vkey(recv), vkey(tail)), ()))
+            return None
         if name == "copy" and not args and not kwargs and self.I.copy_is_identity:
             # value semantics: a copy equals its original (aliasing is decided by the AST rules, not here)
             return recv
@@ -1324,6 +1403,24 @@ def _absent_to_zero(v):
     if a == ("absent",):
         return Poly.const(0)
     return t
+
+
+def _maybe_absent(v):
+    a = as_term(v).as_atom() if not isinstance(v, (AList, ATuple, ADict)) else None
+    if a == ("absent",):
+        return True
+    return a is not None and a[0] == "cond" and any(val == Poly.atom(("absent",)).key() for _, val in a[1])
+
+
+def _presence(v):
+    """1 where the (possibly filtered-out) list element is present, 0 where it is absent."""
+    a = as_term(v).as_atom() if not isinstance(v, (AList, ATuple, ADict)) else None
+    if a == ("absent",):
+        return Poly.const(0)
+    if a is not None and a[0] == "cond":
+        absent = Poly.atom(("absent",)).key()
+        return as_term(make_cond([(g, Poly.const(0) if val == absent else Poly.const(1)) for g, val in a[1]]))
+    return Poly.const(1)
 
 
 def _is_polykey(k):
@@ -1461,7 +1558,7 @@ class Valuation:
         if isinstance(v, Poly):
             return self.poly(v)
         if isinstance(v, (ATuple, AList)):
-            return tuple(self.value(i) for i in v.items) + tuple(("dom", _k(d)) for d in getattr(v, "doms", []))
+            return tuple(self.value(i) for i in v.items)
         if isinstance(v, ADict):
             return tuple(sorted(((_k(k), self.value(x[1])) for k, x in v.items.items())))
         if isinstance(v, tuple):
@@ -1520,6 +1617,8 @@ def _close_vals(x, y):
             return True
         if x != x or y != y:
             return False
+        if x in (float("inf"), float("-inf")) or y in (float("inf"), float("-inf")):
+            return False  # an infinite value equals only itself (inf <= 1e-9 * inf would accept any pair)
         return abs(x - y) <= 1e-9 * max(1.0, abs(x), abs(y))
     return x == y
 
